@@ -38,7 +38,7 @@ CHECKS = {
              " Added: three-block receivers against 1-3-block arguments as all pairs of position sets over a small universe, and closest-block distance in both receiver orders over a wider universe (C02.R6); derived operations extend/shift/reverse/reset_strand/gaps_location/distance_to on all order types (C02.R5); _EmptyLocation identities (C02.R4)."
              " The optional interval-index branch of the compound x compound intersection (cgranges, not installed here) is followed through a native model of the index (C02.R7).",
         note="Trusted: CPython ast, sa/interp.py, the oracle in sa/rules/c02.py. Not decided: operands with more blocks "
-             "than enumerated, the cgranges path (cgranges is not installed), distance arithmetic, parents.",
+             "than enumerated; the real cgranges library (its branch is followed through a native model of the index), parents.",
         design="DESIGN.md section 4, C02",
     ),
     "C03": dict(
@@ -129,7 +129,7 @@ CHECKS = {
              "reads on union members are checked against every member class."
              " Added: the small collection on a sequence chunk and on a chunk with declared bounds wider than the chunk, a variant collection among the members."
              " The optional interval-index implementation of the position query is followed through a native model of cgranges (C09.RX).",
-        note="Trusted: CPython ast, sa/interp.py. The cgranges path is not taken (not installed).",
+        note="Trusted: CPython ast, sa/interp.py, the native model of the cgranges index (add / index / overlap on half-open intervals, results in ascending start order).",
         design="DESIGN.md section 4, C09",
     ),
     "C10": dict(
